@@ -316,6 +316,10 @@ class Codec:
             viol.append(('C15', 'parsable_iff', '%r: %r' % (t, p)))
         if (s.valid, s.parsable) != (v, p):
             viol.append(('C15', 'flags_stable', repr(t)))
+        # value equality (what `remove_formatting` and `in` use): by text, against a str or another setting
+        eq = call(lambda: (s == t, s == S(t), s == S(t + ';1'), s == (t + 'x'), s == 5, s != S(t), str(s) == t))
+        if eq[0] != 'ok' or eq[1] != (True, True, False, False, False, False, True):
+            viol.append(('C07', 'setting_eq', 'AnsiSetting(%r): ==str, ==same, ==longer, ==other str, ==int, !=same, str() -> %r' % (t, eq[1])))
         ip = s.get_initial_param()
         ipl = 'N' if ip is None else '%d %d' % (ip.effect_type.value, ip.effect_fn.value)
         self.emit('setting', inp, 'ok %d %d %s' % (v, p, ipl), 'AnsiSetting(%r)' % t, viol)
